@@ -609,6 +609,9 @@ class C06(Monitor):
         state[never] = "unknown"
         ids = sorted(state)
         tuples = [tp for n in range(1, maxlen + 1) for tp in itertools.product(ids, repeat=n)]
+        if maxlen < 3:
+            # always include the length-3 tuples that name some id twice (misaligned bookkeeping of repeats)
+            tuples += [tp for tp in itertools.product(ids, repeat=3) if len(set(tp)) == 2]
         ch = w.ctl.choose(len(tuples), free=True)
         tup = tuples[ch]
         w.ctl.actions.append(f"  cancel{tup} in state {state}")
@@ -968,6 +971,13 @@ class C11(Monitor):
                 self.next[p] = max(new) + 1
             if any(t < 0 for t in ids):
                 self.v("negative id", p)
+            # an id belongs to one request for good (also after its group was cancelled or flushed)
+            per_req = [(t, s_) for t, s_ in w.created.items() if w.reqs[t].p == p]
+            for a in range(len(per_req)):
+                for b in range(a + 1, len(per_req)):
+                    shared = per_req[a][1] & per_req[b][1]
+                    if shared:
+                        self.v("task id handed out twice (two requests hold the same id)", p, per_req[a][0], per_req[b][0], sorted(shared))
         if kind == "w_start":
             p = key[0]
             for k, o in w.start_order.items():
@@ -1007,6 +1017,8 @@ class C12(Monitor):
             return
         re_ = bool(pos and pos[0])
         known = self.failed_at_call.pop((i, w.pcs[i] - 1), set())
+        if (i, w.pcs[i] - 1) in w.cancelled_ops:
+            return  # the caller itself was cancelled (timeout): CancelledError is what it gets
         if out[0] == "ok":
             # the exception of a failed task that was gathered is what the call raises (unless collected)
             if not re_ and known and not self.cb_raising():
@@ -1079,7 +1091,7 @@ class C13(Monitor):
         if name != "flush":
             return
         pc = w.pcs[i] - 1
-        if pos and pos[0] and out[0] != "ok":
+        if pos and pos[0] and out[0] != "ok" and (i, pc) not in w.cancelled_ops:
             self.v("flush(return_exceptions=True) raised", out)
         fin = sorted(self.fin.pop((i, pc), ()))
         if out[0] != "ok":
@@ -1141,6 +1153,7 @@ class C14(Monitor):
     def before_op(self, i, op):
         name, pos, opts = split_op(op)
         p = opts.get("p", 0)
+        self.pre_targets = set(self.w.cancel_targets)
         if name == "stop":
             self.exp = self.running_ids(p)[: max(0, pos[0])]
         elif name == "stop_all":
@@ -1151,6 +1164,8 @@ class C14(Monitor):
         p = opts.get("p", 0)
         if name == "cancel" and out[0] == "ok":
             self.expected.update((p, t) for t in out[1])
+        if name in ("cancel_group", "cancel_all") and out[0] == "ok":
+            self.expected |= self.w.cancel_targets - self.pre_targets
         if name in ("stop", "stop_all"):
             if out[0] != "ok":
                 self.v(f"{name} raised", out)
@@ -1160,7 +1175,7 @@ class C14(Monitor):
             self.expected.update((p, t) for t in self.exp)
 
     def sample(self, kind, key, tag):
-        if kind == "w_cancel" and key not in self.expected:
+        if kind == "w_cancel" and key not in self.expected and tag not in self.w.group_cancelled:
             self.v("a task that was not stopped observed a cancellation", key)
 
     def quiet_idle(self):
@@ -1182,10 +1197,24 @@ class C15(Monitor):
         self.before = None
         self.grand = {}
         self.allow = {}
+        self.allow_tags = {}
         self.pre = None
+        self.pre_tags = ()
 
     def __canon__(self):
-        return (sorted((p, sorted(v)) for p, v in self.grand.items()), sorted(self.allow.items()))
+        return (sorted((p, sorted(v)) for p, v in self.grand.items()), sorted(self.allow.items()),
+                sorted((p, sorted(v)) for p, v in self.allow_tags.items()))
+
+    def pending_tags(self, p):
+        w = self.w
+        out = []
+        for t, r in w.reqs.items():
+            if r.p != p or t in w.group_cancelled:
+                continue
+            made = len(w.created.get(t, ())) + len(w.skipped.get(t, ()))
+            if r.num - made > 0:
+                out.append(t)
+        return out
 
     def demand(self, p):
         w = self.w
@@ -1209,10 +1238,22 @@ class C15(Monitor):
         if kind == "w_start" and key[1] not in self.grand.get(key[0], ()):
             # tasks created before the latest assignment were admitted under the old limit
             p = key[0]
-            if w.live[p] > w.cfg_size[p] and self.allow.get(p, 0) > 0:
+            entitled = [t for t in self.allow_tags.get(p, ()) if t not in w.group_cancelled]
+            if tag not in w.reqs:
+                # SimpleTaskPool workers share one function: any pending start() request may be the owner
+                mine = any(w.reqs[t].kind == "start" for t in entitled)
+            else:
+                mine = tag in entitled
+            if w.live[p] > w.cfg_size[p] and self.allow.get(p, 0) > 0 and mine:
                 # an admission the old limit had already granted (free room and pending demand
-                # at the moment of the assignment: slot in transit to a woken spawner)
+                # at the moment of the assignment: slot in transit to a woken spawner of THAT request)
                 self.allow[p] -= 1
+            elif w.live[p] > w.cfg_size[p] and self.allow.get(p, 0) > 0 and len(entitled) < len(self.allow_tags.get(p, ())):
+                # known finding KF-C15-1: the slot was in transit to a spawner whose group was cancelled after the
+                # pool had been shrunk; the semaphore took the slot back past the pool's debt counter
+                self.allow[p] -= 1
+                self.v("KF-C15-1 slot in transit to a spawner cancelled after a shrink is handed to a later request "
+                       "(one task beyond the new limit)", p, w.live[p], w.cfg_size[p])
             elif w.live[p] > w.cfg_size[p]:
                 self.v("task admitted although the running count is not below the limit in force", p, w.live[p], w.cfg_size[p])
         if kind == "w_cancel" and key not in w.cancel_targets and tag not in w.group_cancelled:
@@ -1227,6 +1268,7 @@ class C15(Monitor):
             occupied = w.pools[p].num_running + w.pools[p].num_cancelled
             old = w.cfg_size[p]
             self.pre = min(max(0, old - occupied), self.demand(p)) if old != INF else self.demand(p)
+            self.pre_tags = self.pending_tags(p)
 
     def after_op(self, i, op, out):
         w = self.w
@@ -1245,6 +1287,7 @@ class C15(Monitor):
         else:
             self.grand[p] = set(w.all_created(p))
             self.allow[p] = self.pre
+            self.allow_tags[p] = list(self.pre_tags)
 
     def quiet_idle(self):
         w = self.w
